@@ -70,7 +70,11 @@ fn check_string(out: &mut Out, t: &str, r: &mut Rng, embeddings: bool) {
         let cat = RV::Str(format!("{}{}", t, other));
         expect_value(out, "string/embedded", &format!("{}+{}", q, quote(&other)), &cat);
         expect_value(out, "string/embedded", &format!("x={};x", q), &want);
-        out.count("strings embedded 5 ways");
+        // an identifier glued to the literal is a function applied to that very string (no raw / byte / format
+        // string prefixes in this language)
+        let name = *r.pick(&["r", "b", "f", "u8", "rb", "br", "c", "R", "id"]);
+        expect_tree(out, "string/prefixed-by-identifier", &format!("{}{}", name, q), &Ast::Call(name.to_string(), Box::new(Ast::Const(want.clone()))));
+        out.count("strings embedded 6 ways");
     }
 }
 
@@ -450,7 +454,7 @@ pub fn phases(cfg: &Cfg) -> Vec<Box<dyn Phase>> {
         "1.2.3", "truex", "True", "TRUE", "False", "e5", "E5", "_1", "1_000", "1e5x", "x1e5", ".e5", "1e1.5", "1f", "0x1.8", "५", "١٢٣",
         "a.b", "a::b", "math::pi", "$x", "@y", "x'", "q?", "~z", "[a]", "{b}", "#c", "été", "日本語", "λ", "tru", "fals", "nul", "i64", "1st",
         "0e", "00x1", "x0x", "e", "E", "e+", ".", "..", "._", "1..2", "a\u{200b}b", "\u{200b}", "x\u{feff}", "a\u{ad}b", "a\u{2060}b", "“a”", "１２", "1\u{200b}2",
-        "ī", "н", "нx", "ȫ", "ш", "a١",
+        "ī", "н", "нx", "ȫ", "ш", "a١", "0x0x10", "0x0X1", "0x0x", "00x10", "0xx1", "0x_1", "0x1_", "0b101", "0o17", "1x0", "x0x1", "0x1p3", "0x1.0", "1e1e1", "1ee1",
     ]
     .iter()
     .map(|s| s.to_string())
